@@ -565,4 +565,51 @@ theorem body_verifyBlindedMessages : Gen.body_mint_verifyBlindedMessages =
       "return nil",
       "}"] := rfl
 
+/-! ## 5. the text of a secret: `nut10.DeserializeSecret` as mirrored by `Model.Nut10Parse` -/
+
+/-- the three steps of `Model.Nut10Parse.decodeSecret`: Unmarshal into `[]json.RawMessage` (error, or fewer than two
+    elements: not a NUT-10 secret), element 0 into a Go string compared with exactly "P2PK" / "HTLC", element 1 into
+    `SecretData` — nothing else (no pre-check of the text, no limit on tags) -/
+theorem body_DeserializeSecret : Gen.body_nut10_DeserializeSecret =
+    ["{",
+      "var rawJsonSecret []json.RawMessage",
+      "if err := json.Unmarshal([]byte(serializedSecret), &rawJsonSecret); err != nil {",
+      "return WellKnownSecret{}, err",
+      "}",
+      "if len(rawJsonSecret) < 2 {",
+      "return WellKnownSecret{}, errors.New(\"invalid secret: length < 2\")",
+      "}",
+      "var kind string",
+      "var secret WellKnownSecret",
+      "if err := json.Unmarshal(rawJsonSecret[0], &kind); err != nil {",
+      "return WellKnownSecret{}, errors.New(\"invalid kind for secret\")",
+      "}",
+      "switch kind {",
+      "case \"P2PK\":",
+      "secret.Kind = P2PK",
+      "case \"HTLC\":",
+      "secret.Kind = HTLC",
+      "default:",
+      "secret.Kind = AnyoneCanSpend",
+      "}",
+      "if err := json.Unmarshal(rawJsonSecret[1], &secret.Data); err != nil {",
+      "return WellKnownSecret{}, fmt.Errorf(\"invalid secret: %v\", err)",
+      "}",
+      "return secret, nil",
+      "}"] := rfl
+
+theorem body_SerializeSecret : Gen.body_nut10_SerializeSecret =
+    ["{",
+      "jsonSecret, err := json.Marshal(secret.Data)",
+      "if err != nil {",
+      "return \"\", err",
+      "}",
+      "serializedSecret := fmt.Sprintf(\"[\\\"%s\\\", %v]\", secret.Kind, string(jsonSecret))",
+      "return serializedSecret, nil",
+      "}"] := rfl
+
+/-- `nut10.SecretData`: the member names and Go types that `Model.Nut10Parse.setMember` decodes into -/
+theorem fields_SecretData : Gen.fields_nut10_SecretData =
+    [("Nonce", "string", "nonce"), ("Data", "string", "data"), ("Tags", "[][]string", "tags")] := rfl
+
 end Gonuts.Tie.Spend
